@@ -662,11 +662,15 @@ impl KeyboardMatrix {
         let _ = memory;
         if let Some(state) = self.states.get_mut(code as usize) {
             let was_pressed = state.pressed;
-            state.pressed = true;
-            state.debounced = false;
-            state.press_ticks = 0;
-            state.release_ticks = 0;
-            state.repeat_ticks = self.repeat_delay;
+            if !was_pressed {
+                // Match Python KeyboardMatrix.press_key: a new physical press restarts the
+                // debounce counters; the debounced (logical) state only changes in scan_tick.
+                // Pressing a key that is already down changes nothing.
+                state.pressed = true;
+                state.press_ticks = 0;
+                state.release_ticks = 0;
+                state.repeat_ticks = self.repeat_delay;
+            }
             self.kil_latch = self.compute_kil(false);
             // Parity: defer event enqueue/KEYI to timer-driven scan_tick; do not push KIL to IMEM here.
             if self.keyi_on_any_press && !was_pressed {
@@ -681,11 +685,13 @@ impl KeyboardMatrix {
     pub fn release_matrix_code(&mut self, code: u8, memory: &mut MemoryImage) {
         let _ = memory;
         if let Some(state) = self.states.get_mut(code as usize) {
-            state.pressed = false;
-            state.debounced = false;
-            state.press_ticks = 0;
-            state.release_ticks = 0;
-            state.repeat_ticks = 0;
+            if state.pressed {
+                // Match Python KeyboardMatrix.release_key: only the physical state changes here.
+                // The key stays debounced until scan_tick has seen it up for release_threshold
+                // ticks and enqueues the release event.
+                state.pressed = false;
+                state.release_ticks = 0;
+            }
             self.kil_latch = self.compute_kil(false);
             // Parity: defer event enqueue/KEYI to timer-driven scan_tick.
         }
